@@ -46,8 +46,15 @@ def proto_names_module_collisions(r, report=None):
     """Proto.names: module-name collisions are detected across ALL messages of the proto: one module->packages map, created outside
     every loop, filled from every message's recursive field types, consumed after the loops.  The map may live in Proto.names itself
     or in a helper it calls with the types (then the call must receive the types of every message at once, outside any loop)."""
+    from ..pymodel import nfunc
     m = _pm()
     fi = m.func("gapic.schema.api.Proto.names")
+    NF = {}
+
+    def N(f):          # the function in normal form (aliases such as `ident = t.ident` substituted, constants inlined)
+        if f.qual not in NF:
+            NF[f.qual] = nfunc(m, f, keep={"recursive_field_types", "all_messages"})
+        return NF[f.qual]
     r.instance("Proto.names module collisions")
     FILLS = ("_M_[_T_.ident.module].add(_T_.ident.package)", "_M_.setdefault(_T_.ident.module, set()).add(_T_.ident.package)")
     LOOPS = (ast.For, ast.comprehension, ast.ListComp, ast.GeneratorExp, ast.SetComp, ast.DictComp)
@@ -108,9 +115,9 @@ def proto_names_module_collisions(r, report=None):
 
     # where does the map live: Proto.names itself, or a helper (module function / method of Proto) it calls
     host, call_in_names = fi, None
-    adds = fills(fi.node)
+    adds = fills(N(fi))
     if not adds:
-        for n in ast.walk(fi.node):
+        for n in ast.walk(N(fi)):
             if isinstance(n, ast.Call):
                 q = None
                 if isinstance(n.func, ast.Name):
@@ -118,18 +125,19 @@ def proto_names_module_collisions(r, report=None):
                 elif isinstance(n.func, ast.Attribute) and isinstance(n.func.value, ast.Name) and n.func.value.id in ("self", "cls"):
                     mem = m.member(fi.cls, n.func.attr)
                     q = f"{mem.owner}.{n.func.attr}" if mem is not None else None
-                if q in m.functions and fills(m.functions[q].node):
-                    host, call_in_names, adds = m.functions[q], n, fills(m.functions[q].node)
+                if q in m.functions and fills(N(m.functions[q])):
+                    host, call_in_names, adds = m.functions[q], n, fills(N(m.functions[q]))
                     break
     r.need(len(adds) == 1, "Proto.names: <map>[t.ident.module].add(t.ident.package)", f"{len(adds)} found (in Proto.names or a helper it calls)")
     node, b = adds[0]
-    par = parents_of(host.node)
+    hostn = N(host)
+    par = parents_of(hostn)
     fors = [l for l in loops_of(par, node) if isinstance(l, ast.For)]
     r.need(len(fors) == len(loops_of(par, node)) and fors, "Proto.names: the map is filled in for-loops", "filled inside a comprehension")
     r.need(ast.unparse(fors[0].target) == b["_T_"], "Proto.names: innermost fill loop binds the type", ast.unparse(fors[0].target))
     src = fors[0].iter
-    if isinstance(src, ast.Name) and local_value(host.node, src.id) is not None:
-        src = local_value(host.node, src.id)
+    if isinstance(src, ast.Name) and local_value(hostn, src.id) is not None:
+        src = local_value(hostn, src.id)
     ok_fill = False
     if len(fors) == 2:
         bb = pmatch("_X_.recursive_field_types", src)
@@ -138,15 +146,15 @@ def proto_names_module_collisions(r, report=None):
         if host is fi:
             ok_fill = all_types_expr(src)
         else:
-            params = [a.arg for a in host.node.args.args if a.arg not in ("self", "cls")]
+            params = [a.arg for a in hostn.args.args if a.arg not in ("self", "cls")]
             r.need(isinstance(src, ast.Name) and src.id in params, "Proto.names helper: the fill loop iterates a parameter", ast.unparse(src))
-            par_n = parents_of(fi.node)
+            par_n = parents_of(N(fi))
             in_loop = loops_of(par_n, call_in_names)
             idx = params.index(src.id)
             arg = call_in_names.args[idx] if idx < len(call_in_names.args) else next((k.value for k in call_in_names.keywords if k.arg == src.id), None)
             r.need(arg is not None, "Proto.names helper call: the types argument", ast.unparse(call_in_names))
-            if isinstance(arg, ast.Name) and local_value(fi.node, arg.id) is not None:
-                arg = local_value(fi.node, arg.id)
+            if isinstance(arg, ast.Name) and local_value(N(fi), arg.id) is not None:
+                arg = local_value(N(fi), arg.id)
             if in_loop:
                 # called once per iteration: each call sees only that iteration's types, unless every call receives all types
                 ok_fill = all_types_expr(arg)
@@ -154,13 +162,19 @@ def proto_names_module_collisions(r, report=None):
                 ok_fill = all_types_expr(arg)
                 r.need(ok_fill or pmatch("_X_.recursive_field_types", arg) is not None, "Proto.names helper call: argument shape",
                        f"cannot decide whether `{ast.unparse(arg)[:80]}` ranges over the types of every message")
-    created = [n for n in ast.walk(host.node) if isinstance(n, (ast.Assign, ast.AnnAssign)) and
+    def top_index(n):
+        for i_, st_ in enumerate(hostn.body):
+            if any(x is n for x in ast.walk(st_)):
+                return i_
+        return -1
+    created = [n for n in ast.walk(hostn) if isinstance(n, (ast.Assign, ast.AnnAssign)) and
                ast.unparse(n.targets[0] if isinstance(n, ast.Assign) else n.target) == b["_M_"]]
     ok_create = len(created) == 1 and not loops_of(par, created[0])
-    consumers = [n for n in ast.walk(host.node) if isinstance(n, ast.Call) and ast.unparse(n.func) == f"{b['_M_']}.items"]
+    consumers = [n for n in ast.walk(hostn) if isinstance(n, ast.Call) and ast.unparse(n.func) == f"{b['_M_']}.items"]
     ok_consume = len(consumers) >= 1 and all(not any(isinstance(l, ast.For) for l in loops_of(par, c)) for c in consumers) and \
-        all(c.lineno > fors[-1].end_lineno for c in consumers)
-    cond = find_match("len(_P_) > 1 or _K_ in RESERVED_NAMES", host.node)[0] is not None
+        all(top_index(c) > top_index(fors[-1]) for c in consumers)
+    cond = any(isinstance(n, ast.BoolOp) and isinstance(n.op, ast.Or) and any(pmatch("len(_P_) > 1", v) is not None for v in n.values)
+               and any(isinstance(v, ast.Compare) and isinstance(v.ops[0], ast.In) for v in n.values) for n in ast.walk(hostn))
     r.check(ok_fill and ok_create and ok_consume and cond, host.module.path, (call_in_names or node).lineno, "Proto.names: module -> packages map", WHY)
 
 
@@ -431,3 +445,43 @@ def ref_types_inclusions(r, want):
         wantc = frozenset(_nnf(ast.parse(cond, mode="eval").body, True, []))
         r.check(expr in found and found[expr] == wantc, rt.module.path, rt.node.lineno, f"_ref_types: {expr} under {sorted(found.get(expr, ['<absent>']))}",
                 f"_ref_types must include {expr} whenever `{cond}`; otherwise the client modules reference a type they do not import")
+
+
+def try_parse_http_rule_table():
+    """HttpRule.try_parse_http_rule decided on its normal form, evaluated (vlib/pyeval.py, convert_uri_fieldnames and cls kept abstract)
+    over the finite models verb in {None, 'custom', 'get'} x uri in {'', '/v1/x'} x body in {'', reserved, reserved_, ordinary, keyword}:
+    None for an absent / custom pattern or an empty uri; otherwise cls(verb, convert_uri_fieldnames(uri), body') where body' is the body
+    with ONE trailing underscore iff it is reserved and not yet suffixed (None for no body).
+    Returns (mismatches, shown) or (None, reason) when the function cannot be evaluated."""
+    from ..pymodel import nreturn
+    from ..pyeval import Evaluator, UNKNOWN
+    import itertools
+    m = _pm()
+    tp = m.func("gapic.schema.wrappers.HttpRule.try_parse_http_rule")
+    e = nreturn(m, tp, keep={"RESERVED_NAMES", "convert_uri_fieldnames"})
+    if e is None:
+        return None, "does not reduce to one conditional expression", tp
+    reserved = m.const("gapic.utils.reserved_names", "RESERVED_NAMES")
+    param = [a.arg for a in tp.node.args.args if a.arg not in ("cls", "self")][0]
+    bad = []
+    for verb, uri, body in itertools.product((None, "custom", "get"), ("", "/v1/x"), ("", "type", "type_", "name", "class")):
+        rule = {"body": body, "get": uri, "custom": {"kind": "x"} if verb == "custom" else None}
+        funcs = {f"{param}.WhichOneof": lambda _a, _v=verb: _v,
+                 "getattr": lambda o, a, *d: (o.get(a) if isinstance(o, dict) and a is not None and a in o else (d[0] if d else UNKNOWN)),
+                 "cls": lambda *a, **k: ("HttpRule",) + tuple(a) + tuple(sorted(k.items())),
+                 "HttpRule": lambda *a, **k: ("HttpRule",) + tuple(a) + tuple(sorted(k.items())),
+                 "convert_uri_fieldnames": lambda u: ("conv", u), "utils.convert_uri_fieldnames": lambda u: ("conv", u)}
+        ev = Evaluator({param: rule, "RESERVED_NAMES": reserved, "utils": {"RESERVED_NAMES": reserved}}, funcs=funcs)
+        v = ev.ev(e)
+        if v is UNKNOWN:
+            return None, f"cannot evaluate for verb={verb!r}, uri={uri!r}, body={body!r}", tp
+        if verb in (None, "custom") or not uri:
+            want = None
+        else:
+            b2 = (body + "_" if body in reserved and not body.endswith("_") else body) or None
+            want = ("HttpRule", verb, ("conv", uri), b2)
+        if isinstance(v, tuple) and v and v[0] == "HttpRule":
+            v = tuple(x[1] if isinstance(x, tuple) and len(x) == 2 and x[0] in ("method", "uri", "body") else x for x in v)
+        if v != want:
+            bad.append(f"verb={verb!r} uri={uri!r} body={body!r}: {v!r}, expected {want!r}")
+    return bad, ast.unparse(e)[:160], tp
